@@ -4,6 +4,7 @@
 package main
 
 import (
+	"runtime"
 	"bufio"
 	"encoding/json"
 	"flag"
@@ -120,9 +121,11 @@ func (s *stream) enter(what string) {
 func (s *stream) leave() { s.inCB.Add(-1) }
 
 func (s *stream) Accept(tcp *layers.TCP, ci gopacket.CaptureInfo, dir reassembly.TCPFlowDirection, nextSeq reassembly.Sequence, start *bool, ac reassembly.AssemblerContext) bool {
-	s.enter("accept")
-	defer s.leave()
-	// which connection does this packet belong to?  (a packet handed to the stream of another connection is a misdelivery)
+	// which connection does this packet belong to?  A packet handed to the stream of another connection is a
+	// misdelivery; a packet handed to its own connection's stream as the other direction (the connection object
+	// was recycled for the reverse key while the assembler held a pointer to it) is a misdirection.  Both are
+	// observed here, before anything else is logged for this packet: they are the direct evidence that the
+	// assembler works on a connection object other than the one its lookup returned.
 	pc := int(tcp.SrcPort) - 1000
 	if tcp.SrcPort == 80 {
 		pc = int(tcp.DstPort) - 1000
@@ -133,7 +136,11 @@ func (s *stream) Accept(tcp *layers.TCP, ci gopacket.CaptureInfo, dir reassembly
 	}
 	if pc != s.c {
 		s.h.emit(vh.M{"op": "misdelivery", "c": s.c, "pktconn": pc})
+	} else if (dir == reassembly.TCPDirClientToServer) != (pd == s.firstDir) {
+		s.h.emit(vh.M{"op": "misdirection", "c": s.c, "d": pd})
 	}
+	s.enter("accept")
+	defer s.leave()
 	// the segment is logged here, after a possible "new" and before any delivery it causes
 	lo := int(tcp.Seq - 5000)
 	s.h.emit(vh.M{"op": "seg", "c": pc, "d": pd, "lo": lo, "hi": lo + len(tcp.Payload), "syn": false, "fin": tcp.FIN, "rst": false, "force": true, "ts": 1})
@@ -152,6 +159,18 @@ func (s *stream) ReassembledSG(sg reassembly.ScatterGather, ac reassembly.Assemb
 	total, saved := sg.Lengths()
 	b := sg.Fetch(total)
 	ct := s.h.cont(s.c, d)
+	// content bytes name their owner: (value-1)/60 = 2*c+d.  Bytes of another half in this delivery mean that the
+	// connection object was recycled while the packet was being processed on it (reset under the pool lock only)
+	for _, x := range b {
+		if own := (int(x) - 1) / 60; own != 2*s.c+d {
+			if own/2 != s.c {
+				s.h.emit(vh.M{"op": "misdelivery", "c": s.c, "pktconn": own / 2})
+			} else {
+				s.h.emit(vh.M{"op": "misdirection", "c": s.c, "d": own % 2})
+			}
+			break
+		}
+	}
 	s.h.emit(vh.M{"op": "sg", "c": s.c, "d": d, "srun": ct.Runs(b[:saved]), "nrun": ct.Runs(b[saved:]), "skip": skip, "end": end, "keep": -1, "total": total})
 }
 
@@ -261,22 +280,24 @@ func runScenario(tr *vh.Trace, sc int, s scen, controlled bool) {
 		}
 		stuck := false
 		for _, t := range s.Sched {
-			r := ctl.Step(t-1, 2*time.Second)
+			r := ctl.Step(t-1, 20*time.Second)
 			if r == "stuck" {
 				stuck = true
 				break
 			}
 		}
-		ok := ctl.FreeRun(3 * time.Second)
+		ok := ctl.FreeRun(60 * time.Second)
 		if stuck || !ok {
-			h.emit(vh.M{"op": "stuck"})
+			h.emit(vh.M{"op": "stuck", "stacks": stacks()})
+			stuckCount++
 		}
 	} else {
 		for ti, prog := range progs {
 			ctl.Go(ti, body(ti, prog))
 		}
-		if !ctl.FreeRun(5 * time.Second) {
-			h.emit(vh.M{"op": "stuck"})
+		if !ctl.FreeRun(60 * time.Second) {
+			h.emit(vh.M{"op": "stuck", "stacks": stacks()})
+			stuckCount++
 		}
 	}
 	// quiesce: a final sequential FlushAll by the main goroutine
@@ -297,6 +318,18 @@ func runScenario(tr *vh.Trace, sc int, s scen, controlled bool) {
 	tr.EmitBlock(h.evs)
 }
 
+var stuckCount int
+
+// stacks: where the goroutines stand when a scenario stalls (for the replay file; truncated)
+func stacks() string {
+	buf := make([]byte, 1<<16)
+	n := runtime.Stack(buf, true)
+	if n > 6000 {
+		n = 6000
+	}
+	return string(buf[:n])
+}
+
 func main() {
 	in := flag.String("scenarios", "", "ndjson: {progs, sched}")
 	out := flag.String("trace", "trace.ndjson", "trace output")
@@ -312,6 +345,9 @@ func main() {
 	sc := 0
 	seen := map[string]bool{}
 	for rd.Scan() {
+		if stuckCount >= 3 {
+			break // a stalled scenario costs more than a minute: three are evidence enough
+		}
 		var s scen
 		if err := json.Unmarshal(rd.Bytes(), &s); err != nil {
 			vh.Fatal("bad scenario", err)
